@@ -8,7 +8,7 @@ import re
 from ..cfg import build_cfg, calls_in, node_calls
 from ..core import Ctx, property_info, rule
 from ..model import AnalysisError, FuncInfo, walk_no_nested
-from ..q import A, L, func_text, returned_sort_keys, sort_key_attr, value_texts, reach_table, leaves_at, node_containing, asrc, call_name_of, control_deps, family, flows, none_cond, is_self_attr, kwarg, names_in, return_values, stores, unparse
+from ..q import A, L, value_sources, func_text, returned_sort_keys, sort_key_attr, value_texts, reach_table, leaves_at, node_containing, asrc, call_name_of, control_deps, family, flows, none_cond, is_self_attr, kwarg, names_in, return_values, stores, unparse
 from ._schedule import processor_table, step_sequence
 
 SCOPE = ("xsdata.codegen", "xsdata.formats.dataclass.generator", "xsdata.formats.dataclass.filters", "xsdata.formats.mixins", "xsdata.models.xsd", "xsdata.models.config",
@@ -160,7 +160,8 @@ def unordered_iteration(ctx: Ctx) -> None:
     ctx.note("C12.R1 confirmed sites no longer present (table entries to drop)", [list(k) for k in CONFIRMED if k not in seen_keys])
     # the conditions under which the confirmed sites are order-insensitive
     sc = ctx.repo.func("xsdata.codegen.handlers.designate_class_packages:DesignateClassPackages.sort_classes")
-    built = {tgt.id for st, tgt, v in stores(sc.node) if isinstance(tgt, ast.Name) and isinstance(v, (ast.DictComp, ast.Dict)) or (isinstance(tgt, ast.Name) and isinstance(v, ast.Call) and unparse(v.func) in ("dict", "defaultdict"))}
+    flat_names = {a.id for c in calls_in(sc.node) if call_name_of(c) == "toposort_flatten" for a in c.args if isinstance(a, ast.Name)}
+    built = {tgt.id for st, tgt, v in stores(sc.node) if isinstance(tgt, ast.Name) and tgt.id in flat_names and isinstance(v, (ast.DictComp, ast.Dict)) or (isinstance(tgt, ast.Name) and tgt.id in flat_names and isinstance(v, ast.Call) and unparse(v.func) in ("dict", "defaultdict"))}
     flat_args = {id(a) for c in calls_in(sc.node) if call_name_of(c) == "toposort_flatten" for a in c.args}
     uses = [x for x in walk_no_nested(sc.node) if isinstance(x, ast.Name) and x.id in built and isinstance(x.ctx, ast.Load)]
     muts = {id(c.func.value) for c in calls_in(sc.node) if isinstance(c.func, ast.Attribute) and isinstance(c.func.value, ast.Name) and c.func.value.id in built}
@@ -198,6 +199,14 @@ def unordered_iteration(ctx: Ctx) -> None:
                 n_dep += 1
                 par = _parent_call(f.node, c)
                 ok = par is not None and unparse(par.func) in ("set", "frozenset")
+                # ... or named by a temporary whose only uses are such set(...) arguments
+                if not ok:
+                    holders = [st_.targets[0].id for st_ in walk_no_nested(f.node) if isinstance(st_, ast.Assign) and st_.value is c and len(st_.targets) == 1 and isinstance(st_.targets[0], ast.Name)]
+                    for h_ in holders:
+                        uses_ = [x for x in walk_no_nested(f.node) if isinstance(x, ast.Name) and x.id == h_ and isinstance(x.ctx, ast.Load)]
+                        set_args = {id(a) for c2 in calls_in(f.node) if unparse(c2.func) in ("set", "frozenset") for a in c2.args}
+                        comp_iters = {id(g_.iter) for sc in walk_no_nested(f.node) if isinstance(sc, ast.SetComp) for g_ in sc.generators}
+                        ok = bool(uses_) and all(id(u) in set_args or id(u) in comp_iters for u in uses_)
                 # ... or iterated by a set comprehension (whose result is a set again)
                 ok = ok or any(isinstance(sc, ast.SetComp) and any(g_.iter is c for g_ in sc.generators) for sc in walk_no_nested(f.node))
                 ctx.ob(f"{f.qual.split(':')[1]}: {unparse(c)[:40]} (hash-ordered) is consumed as a set", ok, at=f, node=c, msg="dependencies() yields in set order: use it only through set(...)")
@@ -276,14 +285,13 @@ def id_discipline(ctx: Ctx) -> None:
     seeded = False
     for st, v in seq_stores:
         n_ = grn.node_of(st)
-        for nm in [x for x in ast.walk(v) if isinstance(x, ast.Name)]:
-            for leaf, _ch in flows(rn, n_, nm) if n_ is not None else []:
-                txt = unparse(leaf)
-                if isinstance(leaf, ast.Call) and call_name_of(leaf) == "find_next_sequence_number":
-                    seeded = True
-                # the new number must not be derived from the old (address valued) one
-                if ".sequence" in txt or "id(" in txt:
-                    ok = False
+        for leaf in value_sources(rn, n_, v) if n_ is not None else []:
+            txt = unparse(leaf)
+            if isinstance(leaf, ast.Call) and call_name_of(leaf) == "find_next_sequence_number":
+                seeded = True
+            # the new number must not be derived from the old (address valued) one
+            if ".sequence" in txt or "id(" in txt:
+                ok = False
         if any(isinstance(x, ast.Attribute) and x.attr == "sequence" for x in ast.walk(v)):
             ok = False
     ok = ok and seeded and any(isinstance(x, ast.Attribute) and x.attr == "attrs" for l in walk_no_nested(rn.node) if isinstance(l, ast.For) for x in ast.walk(l.iter))
@@ -394,19 +402,31 @@ def sorted_source_listings(ctx: Ctx) -> None:
                 n += 1
                 fq = f.qual.split(":")[1]
                 if fq == "resolve_source":
-                    gen = ctx.repo.func("xsdata.cli:generate")
-                    uses = [x for x in calls_in(gen.node) if unparse(x.func) == "resolve_source"]
-                    ok = len(uses) == 1 and _parent_call(gen.node, uses[0]) is not None and unparse(_parent_call(gen.node, uses[0]).func) == "sorted"
-                    ctx.ob("cli.generate sorts the URIs yielded by resolve_source (glob order is file-system dependent)", ok, at=gen, node=uses[0] if uses else None, construct="sorted sources",
-                           msg="source order follows the directory listing: class merge / naming order differs between machines")
+                    continue  # its one consumer, cli.generate, is checked below: what reaches the transformer is sorted
                 else:
                     ctx.ob(f"{fq}: {unparse(c)[:40]} result is sorted before use", _parent_call(f.node, c) is not None and unparse(_parent_call(f.node, c).func) == "sorted", at=f, node=c, msg="unsorted directory listing")
     ctx.floor("directory listing sites", n, 1)
     tr = ctx.repo.func("xsdata.cli:generate")
     gtr = build_cfg(tr.node)
     procs = [(n, c) for n in gtr.stmts() for c in node_calls(n) if isinstance(c.func, ast.Attribute) and c.func.attr == "process" and c.args]
-    ok = bool(procs) and all(all(isinstance(leaf, ast.Call) and call_name_of(leaf) == "sorted" and any(isinstance(x, ast.Call) and call_name_of(x) == "resolve_source" for x in ast.walk(leaf)) for leaf, _ in flows(tr, n, c.args[0])) for n, c in procs)
-    ctx.ob("the sorted list is what the transformer processes", ok, at=tr, construct="sorted list used", msg="another list is processed")
+
+    def _sorted_listing(n, e: ast.expr) -> bool:
+        """The value is the sorted result of resolve_source(...): `sorted(resolve_source(..))`, or a list built from it and sorted in
+        place (`.sort()` on every path, after its last assignment) - through temporaries."""
+        fl = flows(tr, n, e)
+        from_listing = lambda x: any(isinstance(y, ast.Call) and call_name_of(y) == "resolve_source" for y in ast.walk(x))  # noqa: E731
+        if fl and all(isinstance(leaf, ast.Call) and call_name_of(leaf) == "sorted" and from_listing(leaf) for leaf, _ in fl):
+            return True
+        if isinstance(e, ast.Name):
+            sorts = [m for m in gtr.stmts() for c2 in node_calls(m) if isinstance(c2.func, ast.Attribute) and c2.func.attr == "sort" and isinstance(c2.func.value, ast.Name) and c2.func.value.id == e.id]
+            defs_ = [chain[0] for _, chain in fl if chain]
+            return bool(sorts) and bool(fl) and all(from_listing(leaf) for leaf, _ in fl) and gtr.must_pass(gtr.entry, n.id, [m.id for m in sorts]) and all(
+                any(m.id in gtr.reachable([d.id]) for m in sorts) and not any(d.id in gtr.reachable([m.id]) for m in sorts) for d in defs_)
+        return False
+
+    ok = bool(procs) and all(_sorted_listing(n, c.args[0]) for n, c in procs)
+    ctx.ob("cli.generate hands the transformer the SORTED listing of resolve_source (glob order is file-system dependent)", ok, at=tr, construct="sorted list used",
+           msg="source order follows the directory listing: class merge / naming order differs between machines")
 
 
 NONDET = ("datetime.datetime.now", "datetime.now", "datetime.today", "datetime.date.today", "time.time", "time.monotonic", "random.", "uuid.", "os.getpid", "os.environ", "os.getenv", "secrets.")
@@ -429,10 +449,13 @@ def clock_random_environment(ctx: Ctx) -> None:
                 ctx.ob(f"{f.qual.split(':')[1]}: os.environ is not consulted", False, at=f, node=node, msg="environment dependent output")
     rh = ctx.repo.func("xsdata.formats.mixins:AbstractGenerator.render_header")
     g = build_cfg(rh.node)
-    t = [x for x in g.nodes if x.kind == "test" and "include_header" in unparse(x.ast)]
     now = [x for x in g.stmts() if any("now" in unparse(c.func) for c in node_calls(x))]
-    ctx.ob("the timestamped header is emitted only when config.output.include_header is enabled (off by default)", bool(t) and bool(now) and all(g.only_if(x.id, t[0].id, True) for x in now), at=rh, construct="header opt-in",
-           msg="timestamp emitted unconditionally")
+    tabs = [reach_table(rh, x, [{"self.config.output.include_header": True}], raw=True) for x in now]
+    if now and all(tb is not None for tb in tabs):
+        ctx.ob("the timestamped header is emitted only when config.output.include_header is enabled (off by default)", all(tb == {(True,): True, (False,): False} for tb in tabs), at=rh, construct="header opt-in",
+               msg="timestamp emitted unconditionally")
+    elif not now:
+        ctx.ob("the generated header carries no timestamp", True, at=rh, construct="header opt-in")
     cfg = ctx.repo.cls("xsdata.models.config:GeneratorOutput")
     d = cfg.attrs.get("include_header")
     ok = d is not None and ("False" in unparse(d))
@@ -503,6 +526,18 @@ def routes_agree(ctx: Ctx) -> None:
     reads = [n for n in gg.stmts() if any(unparse(c.func) == "GeneratorConfig.read" for c in node_calls(n))]
     upd = [n for n in gg.stmts() if any(isinstance(c.func, ast.Attribute) and c.func.attr == "update" and unparse(c.func.value).endswith(".output") and any(k.arg is None for k in c.keywords) for c in node_calls(n))]
     ctx.ob("cli.generate applies the options on top of the config file", bool(reads) and bool(upd) and all(gg.must_pass(gg.entry, u.id, [r.id for r in reads]) for u in upd), at=gen, construct="options override file", msg="route changed")
+    # the options applied late (CLI route: output.update(**params)) pass the same conflict resolution as the constructor / config-file route
+    out_cls = ctx.repo.cls("xsdata.models.config:GeneratorOutput")
+    post, upd_m = out_cls.methods.get("__post_init__"), out_cls.methods.get("update")
+    if post is not None and upd_m is not None:
+        ctor_validators = {func_text(post, c) for c in calls_in(post.node) if call_name_of(c) == "validate"}
+        gu = build_cfg(upd_m.node)
+        applied = [n for n in gu.stmts() if any(func_text(upd_m, c) == "objects.update" for c in node_calls(n))]
+        after = {func_text(upd_m, c) for n in gu.stmts() for c in node_calls(n) if call_name_of(c) == "validate" and applied and all(gu.must_pass(a.id, gu.exit, [n.id], normal_only=True) for a in applied)}
+        for v in sorted(ctor_validators):
+            ctx.ob(f"GeneratorOutput.update re-runs {v}() - the conflict resolution the constructor route (__post_init__) applies", v in after, at=upd_m, construct=f"late options {v}",
+                   msg="options given on the command line are applied through update() and skip this validation, while the same options in a config file / constructor pass it: "
+                       "--frozen --generic-collections keeps generic_collections=True on the CLI route and reverts it on the file route (different generated code)")
     bo = ctx.repo.func_opt("xsdata.utils.click:build_options")
     if bo is None:
         raise AnalysisError("C12.R6: utils.click.build_options vanished")
